@@ -15,8 +15,11 @@ def main():
     props = [json.loads(l) for l in open(os.path.join(VERIF, "properties.jsonl"))]
     checks = {}
     d = os.path.join(HERE, "checks.d")
+    integrated = None
+    if os.path.exists(os.path.join(HERE, "integrated.txt")):
+        integrated = set(open(os.path.join(HERE, "integrated.txt")).read().split())
     for f in sorted(os.listdir(d)):
-        if f.endswith(".json"):
+        if f.endswith(".json") and (integrated is None or f[:-5] in integrated):
             checks[f[:-5]] = json.load(open(os.path.join(d, f)))
     na = {}
     if os.path.exists(os.path.join(HERE, "not_applicable.json")):
